@@ -38,6 +38,10 @@ def run(p, report, tier):
                 "re-created from the constructor parameter only under a test that is false while that attribute exists",
                 floor=2)
     check_incremental_history(p, report)
+    report.rule("R13.5", "an attribute that fit stores on some path it stores on every path (loops are assumed to run "
+                "at least once; lazily created caches under `not hasattr` excepted): otherwise the value of an "
+                "earlier fit survives a later fit that takes the other path (weights_ of a weighted fit)", floor=10)
+    check_store_on_every_path(p, report, ents)
     _rest(p, report, tier)
 
 
@@ -97,6 +101,23 @@ def _rest(p, report, tier):
     ext = {n.func.value.attr for n in ast.walk(add.node) if isinstance(n, ast.Call) and isinstance(n.func, ast.Attribute)
            and n.func.attr == "extend" and isinstance(n.func.value, ast.Attribute) and isinstance(n.func.value.value, ast.Name)
            and n.func.value.value.id == "self"}
+    # the newest samples win: a batch is never cut from its head before it enters the windows
+    add = sw.methods.get("_add_samples")
+    heads = []
+    if add is not None:
+        for n in ast.walk(add.node):
+            if isinstance(n, ast.Assign):
+                vals = n.value.elts if isinstance(n.value, ast.Tuple) else [n.value]
+                for v in vals:
+                    if isinstance(v, ast.Subscript) and isinstance(v.slice, ast.Slice) and v.slice.lower is None \
+                            and v.slice.upper is not None and isinstance(v.value, ast.Name) \
+                            and v.value.id in add.all_param_names():
+                        heads.append(n)
+        report.add("R13.3", "SlidingWindowClassifier._add_samples", "incoming batch is not truncated from its head",
+                   f"{add.file}:{(heads[0] if heads else add.node).lineno}", not heads,
+                   detail="the bounded deques keep the newest samples" if not heads else
+                   f"`{norm_stmt(heads[0], 70)}` keeps the OLDEST samples of an oversized batch: the window is not the last "
+                   "window_size samples")
     report.add("R13.3", "SlidingWindowClassifier._add_samples", "all three windows are extended together",
                f"{add.file}:{add.node.lineno}", set(names) <= ext, detail=f"extended: {sorted(ext)}")
 
@@ -208,3 +229,43 @@ def check_incremental_history(p, report, rule="R13.4"):
                            f"on the partial_fit path ({env or 'direct'}) the incrementally fitted self.{attr} is replaced by a "
                            "fresh copy of the constructor parameter although it exists: earlier batches are forgotten")
     return n
+
+
+def check_store_on_every_path(p, report, ents, rule="R13.5"):
+    for ci, f in ents:
+        am = AttrMust(p, ci, f).run()
+        must, _ = am.summary()
+        parents = {}
+        for x in ast.walk(f.node):
+            for ch in ast.iter_child_nodes(x):
+                parents[ch] = x
+        may = {}
+        for n in ast.walk(f.node):
+            if isinstance(n, ast.Assign):
+                for t in n.targets:
+                    for e in (t.elts if isinstance(t, (ast.Tuple, ast.List)) else [t]):
+                        if isinstance(e, ast.Attribute) and isinstance(e.value, ast.Name) and e.value.id == "self":
+                            may.setdefault(e.attr, []).append(n)
+        bad = []
+        for a, stores in sorted(may.items()):
+            if a in must:
+                continue
+            in_loop = lazy = False
+            for st in stores:
+                x = parents.get(st)
+                while x is not None and x is not f.node:
+                    if isinstance(x, (ast.For, ast.While)):
+                        in_loop = True
+                    if isinstance(x, ast.If) and "hasattr" in ast.unparse(x.test) and a in ast.unparse(x.test):
+                        lazy = True
+                    x = parents.get(x)
+            if in_loop or lazy:
+                continue
+            bad.append((a, stores[0]))
+        ent = f"{ci.name}.fit"
+        if not bad:
+            report.add(rule, ent, "every attribute stored by fit is stored on every path", f"{f.file}:{f.node.lineno}", True,
+                       detail=f"{len(may)} attributes stored directly in fit")
+        for a, st in bad:
+            report.add(rule, ent, f"self.{a} stored on some paths only: `{norm_stmt(st, 60)}`", f"{f.file}:{st.lineno}", False,
+                       detail=f"on the other paths self.{a} keeps the value of an earlier fit")
